@@ -378,6 +378,24 @@ def register(reg):
     reg.lemma("ext_l_ad", LX, "cuml(a, r[t] + 1, x) == SL_AD(r, c, t, n, x)", props=LO,
               requires={"x": "x <= r[t] + 1", "pt": "forall(lambda k: a[k] == DAD(r, c, t, n, k), x, r[t] + 1)"},
               hints=["ext_l_ad_d(a, r, c, t, n, x, r[t] + 1 - x)"])
+    # from "the search found nothing" to "no move of this kind improves", for the element whose deltas are in `a`
+    LM = dict(a=Arr(Real), r=Arr(Int), c=Arr(Real), t=Int, n=Int, mx=Int, res=Int)
+    reg.lemma("loc_join_r", LM, "implies(res == -1, SR_CH(r, c, t, n, x) >= -0.001)", intro={"x": ("r[t] + 1", "mx + 1")},
+              props=LO, requires={"pt": "forall(lambda k: a[k] == DCH(r, c, t, n, k), 0, mx + 2)", "B": "0 <= r[t]",
+                                  "miss": "implies(res == -1, forall(lambda y: cumr(a, r[t], y) >= -0.001, r[t] + 1, mx + 1))"},
+              hints=["ext_r_ch(a, r, c, t, n, x)"])
+    reg.lemma("loc_join_l", LM, "implies(res == -1, SL_CH(r, c, t, n, x) >= -0.001)", intro={"x": ("0", "r[t]")},
+              props=LO, requires={"pt": "forall(lambda k: a[k] == DCH(r, c, t, n, k), 0, mx + 2)", "B": "0 <= r[t] and r[t] <= mx",
+                                  "miss": "implies(res == -1, forall(lambda y: cuml(a, r[t], y) >= -0.001, 0, r[t]))"},
+              hints=["ext_l_ch(a, r, c, t, n, x)"])
+    reg.lemma("loc_add_r", LM, "implies(res == -1, SR_AD(r, c, t, n, x) >= -0.001)", intro={"x": ("r[t] + 1", "mx + 2")},
+              props=LO, requires={"pt": "forall(lambda k: a[k] == DAD(r, c, t, n, k), 0, mx + 3)", "B": "0 <= r[t]",
+                                  "miss": "implies(res == -1, forall(lambda y: cumr(a, r[t], y) >= -0.001, r[t] + 1, mx + 2))"},
+              hints=["ext_r_ad(a, r, c, t, n, x)"])
+    reg.lemma("loc_add_l", LM, "implies(res == -1, SL_AD(r, c, t, n, x) >= -0.001)", intro={"x": ("0", "r[t] + 1")},
+              props=LO, requires={"pt": "forall(lambda k: a[k] == DAD(r, c, t, n, k), 0, mx + 3)", "B": "0 <= r[t] and r[t] <= mx",
+                                  "miss": "implies(res == -1, forall(lambda y: cuml(a, r[t] + 1, y) >= -0.001, 0, r[t] + 1))"},
+              hints=["ext_l_ad(a, r, c, t, n, x)"])
     LOCS = {
         "join_r": "forall(lambda x: SR_CH(r, cost_matrix_1d, t, n, x) >= -0.001, r[t] + 1, %s + 1)",
         "join_l": "forall(lambda x: SL_CH(r, cost_matrix_1d, t, n, x) >= -0.001, 0, r[t])",
@@ -425,8 +443,14 @@ def register(reg):
                 "loc_" + nm: "implies(terminated == 1, forall(lambda t: %s, 0, elem))" % (src.replace("%s", "max_id_bucket"))
                 for nm, src in LOCS.items()})),
         },
-        use_lemmas={"loc_join_r": ["ext_r_ch"], "loc_join_l": ["ext_l_ch"], "loc_add_r": ["ext_r_ad"],
-                    "loc_add_l": ["ext_l_ad"]},
+        call_hints={
+            "_search_to_change_bucket": [
+                "loc_join_r(CH0, r, cost_matrix_1d, elem, n, max_id_bucket, call_result)",
+                "loc_join_l(CH0, r, cost_matrix_1d, elem, n, max_id_bucket, call_result)"],
+            "_search_to_add_bucket": [
+                "loc_add_r(AD0, r, cost_matrix_1d, elem, n, max_id_bucket, call_result)",
+                "loc_add_l(AD0, r, cost_matrix_1d, elem, n, max_id_bucket, call_result)"],
+        },
         hints={2: ["dense_bound(r, n, max_id_bucket, wit)", "nl_bound(n, elem)",
                    "CH_own_zero(r, cost_matrix_1d, elem, r[elem], n, n)"]},
         exit_hints={1: ["dense_bound(r, n, max_id_bucket, wit)"]},
@@ -438,6 +462,7 @@ def register(reg):
             ("_add_bucket", "mate"): "choose(lambda j: j != elem and r[j] == bucket_elem, 0, n)",
         },
         ghost_after={
+            "_compute_delta_costs": {"CH0": "change", "AD0": "add"},     # snapshots of the two difference arrays
             "_change_bucket": {"wit": "lam(lambda b: chg_wit(wit, g_mate, bucket_elem, alone, b))"},
             "_add_bucket": {"wit": "lam(lambda b: add_wit(wit, g_mate, elem, bucket_elem, to, alone, b))"},
         },
